@@ -74,3 +74,10 @@ Theorem C08_lookback_sufficient : forall (r : rule) (A a d S : Z) (i : ivl),
   fend i <= A.
 Proof. exact anchor_before. Qed.
 Print Assumptions C08_lookback_sufficient.
+
+Theorem C08_anchor_series : forall (r : rule) (sd a : Z),
+  0 < r_interval r ->
+  safe_anchor r sd = Some a ->
+  forall c, matches_s (series_from r a) c = matches_s (series_of r) c.
+Proof. exact anchor_series. Qed.
+Print Assumptions C08_anchor_series.
